@@ -72,6 +72,8 @@ def expr_tree(R, e, kind, model=None):
         return expr_tree(R, e.children()[0], kind[1], model)
     if isinstance(kind, tuple) and kind[0] == 'tuple':
         return {'tuple': [expr_tree(R, a, k, model) for a, k in zip(e.children(), kind[1])]}
+    if isinstance(kind, tuple) and kind[0] == 'map':
+        return {'map': map_entries(R, e, kind[1], kind[2], model)}
     return {'opaque': str(e)}
 
 
@@ -112,15 +114,28 @@ def set_items(e):
 
 
 def finite_map(R, model, m):
-    dom = model.eval(m.dom, model_completion=True)
-    keys = set_items(dom)
-    if keys is None:
-        return {'opaque': str(dom)}
+    return map_entries(R, model.eval(m.arr, model_completion=True), m.kkind, m.vkind, model)
+
+
+def map_entries(R, e, kkind, vkind, model=None):
+    """Entries of a finite-map value: stores on a constant-none array."""
     out = []
-    for k in keys:
-        v = model.eval(z3.Select(m.val, k), model_completion=True)
-        out.append([expr_tree(R, k, m.kkind, model), expr_tree(R, v, m.vkind, model)])
-    return out
+    seen = []
+    while True:
+        k = e.decl().kind()
+        if k == z3.Z3_OP_STORE:
+            arr, idx, v = e.children()
+            if not any(idx.eq(s) for s in seen):
+                seen.append(idx)
+                if not v.decl().name().endswith('_none'):
+                    out.append([expr_tree(R, idx, kkind, model), expr_tree(R, v.children()[0], vkind, model)])
+            e = arr
+        elif k == z3.Z3_OP_CONST_ARRAY:
+            if e.children()[0].decl().name().endswith('_none'):
+                return out
+            return {'opaque': str(e)}
+        else:
+            return {'opaque': str(e)}
 
 
 # --------------------------------------------------------------------------- JSON tree -> real objects
